@@ -9,6 +9,7 @@
    7. the monitor accepts every model trace *)
 From Coq Require Import Lia ZifyBool.
 From BT Require Import Base.ListX AdvData.AdvDataModel AdvData.AdvDataSpec.
+Set Implicit Arguments.
 
 (* ------------------------------------------------------------------ 1. stores *)
 Lemma upd_app_at (pre : list N) y r x : upd (pre ++ y :: r) (length pre) x = pre ++ x :: r.
@@ -139,7 +140,7 @@ Proof.
     + split; [apply Nat.le_0_l | apply skip_none].
     + set (m := Nat.min ((k - 2) / 2) (length us)).
       assert (Hm : length (enc16 (firstn m us)) = 2 * m) by (rewrite enc16_length, firstn_length; lia).
-      pose proof (Nat.mul_div_le (k - 2) 2).
+      pose proof (Nat.mul_div_le (k - 2) 2 ltac:(lia)).
       apply put_one.
       * simpl raw_enc. rewrite Hm. reflexivity.
       * simpl ad_size. rewrite Hm. lia.
@@ -192,7 +193,7 @@ Proof.
     + set (m := Nat.min ((k - 2) / 16) (length us)).
       assert (Hm : length (concat (firstn m us)) = 16 * m).
       { rewrite concat16_length by (apply Forall_firstn; exact W). rewrite firstn_length. lia. }
-      pose proof (Nat.mul_div_le (k - 2) 16).
+      pose proof (Nat.mul_div_le (k - 2) 16 ltac:(lia)).
       unfold size, raw; simpl list_sum; simpl flat_map. rewrite app_nil_r, Nat.add_0_r, Hm.
       split; [lia|].
       unfold seq. rewrite put_fresh by (simpl; lia).
@@ -225,7 +226,7 @@ Lemma sat_flags0 k :
   w_flags (repeat fill k) 0 = Some (raw (g_flags k) ++ repeat fill (k - size (g_flags k)), length (raw (g_flags k))).
 Proof.
   unfold w_flags, g_flags. rewrite repeat_length. destruct (3 <=? k) eqn:E.
-  - split; [simpl; lia|]. exact (put_fresh [] k [2%N; ad_flags; 6%N] ltac:(simpl; lia)).
+  - split; [simpl; lia|]. exact (@put_fresh [] k [2%N; ad_flags; 6%N] ltac:(simpl; lia)).
   - split; [simpl; lia|]. simpl. now rewrite Nat.sub_0_r.
 Qed.
 
@@ -280,7 +281,7 @@ Lemma copy_custom_good data b : good b (result (copy_custom data b)) (firstn (Na
 Proof.
   unfold copy_custom, fresh.
   assert (H : length (firstn (Nat.min (length data) b) data) = Nat.min (length data) b) by (rewrite firstn_length; lia).
-  pose proof (put_fresh [] b (firstn (Nat.min (length data) b) data) ltac:(lia)) as P. simpl in P.
+  pose proof (@put_fresh [] b (firstn (Nat.min (length data) b) data) ltac:(lia)) as P. simpl in P.
   rewrite P. unfold good, result. split; [reflexivity | lia].
 Qed.
 
@@ -288,7 +289,7 @@ Lemma scan_auto_good b : good b (result (scan_auto b)) (if b <? 2 then [] else [
 Proof.
   unfold scan_auto, fresh. destruct (b <? 2) eqn:E.
   - unfold good, result. simpl. rewrite Nat.sub_0_r. split; [reflexivity | lia].
-  - pose proof (put_fresh [] b [0%N; 0%N] ltac:(simpl; lia)) as P. simpl in P. rewrite P.
+  - pose proof (@put_fresh [] b [0%N; 0%N] ltac:(simpl; lia)) as P. simpl in P. rewrite P.
     unfold good, result. simpl. split; [reflexivity | lia].
 Qed.
 
@@ -348,7 +349,7 @@ Qed.
 
 Lemma small_ads_ok ads : size ads <= 256 -> Forall ad_ok ads.
 Proof.
-  intros H. apply Forall_forall. intros a Ha. pose proof (ad_size_le_size _ _ Ha).
+  intros H. apply Forall_forall. intros a Ha. pose proof (ad_size_le_size Ha).
   destruct a; simpl in *; [exact I | lia].
 Qed.
 
@@ -735,7 +736,7 @@ Lemma monitor_from_accepts c ops : wf_cfg c -> Forall bounded ops -> forall s m 
 Proof.
   intros W. induction 1 as [|o t Ho _ IH]; intros s m pos A; [reflexivity|].
   cbn [run]. destruct (step c s o) as [s' r] eqn:E. cbn [monitor_from].
-  destruct (mstep_accepts o W Ho A) as (m' & M & A'). rewrite E in M, A'. cbn [fst snd] in M, A'.
+  destruct (mstep_accepts W Ho A) as (m' & M & A'). rewrite E in M, A'. cbn [fst snd] in M, A'.
   rewrite M. apply IH. exact A'.
 Qed.
 
@@ -758,7 +759,7 @@ Proof.
   intros W B R C. exists (spec_ads c b).
   destruct (adv_auto_spec b W) as [L E].
   pose proof (spec_ads_ok W B) as OK.
-  destruct (check_auto_meaning _ _ _ (spec_checked b W)) as (PL & F1 & F2).
+  destruct (check_auto_meaning (spec_checked b W)) as (PL & F1 & F2).
   split; [|split; [split; [exact OK | reflexivity]|split; [exact L|split; [lia|split; [exact PL|split]]]]].
   - unfold advertising_data. rewrite R, C, E. unfold result. now rewrite raw_ok.
   - intros H. destruct (F1 H) as (r & -> & Hr). exists r. split; [reflexivity|].
